@@ -112,6 +112,8 @@ def _rename_term(t, pi):
         return ["var", pi[t[1]]]
     if t[0] == "const":
         return t
+    if t[0] == "pcall":
+        return ["pcall", t[1], [_rename_term(a, pi) for a in t[2]]]
     return [t[0], _rename_term(t[1], pi)] + t[2:]
 
 
